@@ -522,7 +522,83 @@ def gen_colorful():
     return '\n'.join(out)
 
 
-GENERATORS = {'Consts.v': gen_consts, 'EntryPoints.v': gen_entrypoints, 'Extras.v': gen_extras, 'Tokens.v': gen_tokens, 'Colorful.v': gen_colorful}
+# -------------------------------------------------------------------- Lazy --
+def gen_lazy():
+    """the self-mutating lazily normalised FlatChoice (doctypes.py): which objects can ever be mutated"""
+    dt = parse('doctypes.py')
+    init = find_func(dt, '__init__', cls='FlatChoice')
+    need([a.arg for a in init.args.args] == ['self', 'when_broken', 'when_flat', 'normalize_on_access']
+         and len(init.args.defaults) == 1 and isinstance(init.args.defaults[0], ast.Constant)
+         and isinstance(init.args.defaults[0].value, bool), 'FlatChoice.__init__(..., normalize_on_access=<bool>)')
+    default_flag = init.args.defaults[0].value
+    inits = {ast.unparse(st.targets[0]): ast.unparse(st.value) for st in init.body if isinstance(st, ast.Assign)}
+    need(inits.get('self._broken_normalized') == 'False' and inits.get('self._flat_normalized') == 'False'
+         and inits.get('self.normalize_on_access') == 'normalize_on_access',
+         'FlatChoice.__init__ initialises the three flags')
+    norm = find_func(dt, 'normalize', cls='FlatChoice')
+    expect = ast.parse(
+        "def normalize(self):\n"
+        "    if self.normalize_on_access:\n"
+        "        return self\n"
+        "    return FlatChoice(self._when_broken, self._when_flat, normalize_on_access=True)\n").body[0]
+    need(ast.dump(norm) == ast.dump(expect), 'FlatChoice.normalize returns self or a NEW FlatChoice(..., normalize_on_access=True)')
+
+    def guard(prop, field, flag):
+        fn = find_func(dt, prop, cls='FlatChoice')
+        need(len(fn.body) == 2 and isinstance(fn.body[0], ast.If) and not fn.body[0].orelse
+             and isinstance(fn.body[1], ast.Return) and ast.unparse(fn.body[1].value) == 'self.' + field,
+             'FlatChoice.%s: one guarded update, then return self.%s' % (prop, field))
+        body = fn.body[0].body
+        need([ast.unparse(b) for b in body] == ['self.%s = normalize_doc(self.%s)' % (field, field), 'self.%s = True' % flag],
+             'FlatChoice.%s: guarded body normalises self.%s and sets self.%s' % (prop, field, flag))
+
+        def tr(e):
+            if isinstance(e, ast.BoolOp) and isinstance(e.op, ast.And):
+                return '(' + ' && '.join(tr(v) for v in e.values) + ')'
+            if isinstance(e, ast.UnaryOp) and isinstance(e.op, ast.Not):
+                return '(negb %s)' % tr(e.operand)
+            m = {'self.normalize_on_access': 'flag', 'self._broken_normalized': 'bn', 'self._flat_normalized': 'fn'}
+            need(ast.unparse(e) in m, 'FlatChoice.%s: guard term %s' % (prop, ast.unparse(e)))
+            return m[ast.unparse(e)]
+        return tr(fn.body[0].test)
+    gb = guard('when_broken', '_when_broken', '_broken_normalized')
+    gf = guard('when_flat', '_when_flat', '_flat_normalized')
+    # every construction with normalize_on_access=True in the package
+    sites = 0
+    for rel in sorted(os.listdir(PKG)):
+        if not rel.endswith('.py'):
+            continue
+        for n in ast.walk(parse(rel)):
+            if isinstance(n, ast.Call) and any(k.arg == 'normalize_on_access' and not (
+                    isinstance(k.value, ast.Constant) and k.value.value is False) for k in n.keywords):
+                sites += 1
+            if isinstance(n, ast.Call) and isinstance(n.func, ast.Name) and n.func.id == 'FlatChoice' and len(n.args) >= 3:
+                sites += 1
+    # assignments to the private fields anywhere else in doctypes.py
+    writers = set()
+    for cls in [n for n in dt.body if isinstance(n, ast.ClassDef)]:
+        for fn in [n for n in cls.body if isinstance(n, ast.FunctionDef)]:
+            for n in ast.walk(fn):
+                if isinstance(n, (ast.Assign, ast.AugAssign)):
+                    tg = n.targets[0] if isinstance(n, ast.Assign) else n.target
+                    if isinstance(tg, ast.Attribute) and tg.attr in ('_when_broken', '_when_flat', '_broken_normalized',
+                                                                     '_flat_normalized', 'normalize_on_access'):
+                        writers.add('%s.%s' % (cls.name, fn.name))
+    need(writers == {'FlatChoice.__init__', 'FlatChoice.when_broken', 'FlatChoice.when_flat'},
+         'only __init__ and the two properties write FlatChoice fields: %r' % sorted(writers))
+    out = ['(* GENERATED by harness/translate.py from doctypes.py - do not edit *)',
+           'From Coq Require Import Bool.',
+           'Definition fc_default_flag : bool := %s.' % ('true' if default_flag else 'false'),
+           '(* guards of the self-mutating properties, over (normalize_on_access, _broken_normalized, _flat_normalized) *)',
+           'Definition fc_broken_guard (flag bn fn : bool) : bool := %s.' % gb,
+           'Definition fc_flat_guard (flag bn fn : bool) : bool := %s.' % gf,
+           '(* number of constructions of a FlatChoice with normalize_on_access=True in the package (the one in normalize) *)',
+           'Definition fc_true_flag_sites : nat := %d.' % sites,
+           '']
+    return '\n'.join(out)
+
+
+GENERATORS = {'Consts.v': gen_consts, 'EntryPoints.v': gen_entrypoints, 'Extras.v': gen_extras, 'Tokens.v': gen_tokens, 'Colorful.v': gen_colorful, 'Lazy.v': gen_lazy}
 
 
 def generate():
